@@ -169,8 +169,13 @@ def emitted_modules():
                 e.route = label
             out.append(e if isinstance(e, modroute.Emitted) else (f'{label}[ctx={int(name is not None)}]', e))
     for label, pnodes, pbuild, cbuild in sub_routes(R):
-        pe = R.emit(f'{label}:parent', pbuild(), name='pmod')
-        ce = R.emit(f'{label}:child', cbuild(), name='cmod', extends=R.parent('pmod', pnodes))
+        pbody, cbody = pbuild(), cbuild()
+        pe = R.emit(f'{label}:parent', pbody, name='pmod')
+        ce = R.emit(f'{label}:child', cbody, name='cmod', extends=R.parent('pmod', pnodes))
+        for e_, b_ in ((pe, pbody), (ce, cbody)):
+            if isinstance(e_, modroute.Emitted):
+                e_.body = b_
+                e_.route = label
         for e, l in ((pe, f'{label}:parent'), (ce, f'{label}:child')):
             out.append(e if isinstance(e, modroute.Emitted) else (l, e))
         if isinstance(ce, modroute.Emitted) and isinstance(pe, modroute.Emitted):
@@ -777,7 +782,9 @@ def ignore_distribution(R, bad, stats):
             if not isinstance(e, modroute.Emitted) or not hasattr(e, 'body'):
                 continue
             body, label = e.body, e.label
-            has_ignore = any(isinstance(r, M.Obj) and r.d.get('is_ignored') for r in body)
+            has_ignore = any(isinstance(r, M.Obj) and r.d.get('is_ignored') for r in body) or e.sub
+            # (every base grammar of the sub-grammar routes declares ignore patterns, which a
+            # sub-grammar inherits)
             lits = [o for o in walk_objs(body) if o.cls.name in LITERALS]
             stats['literals'] += len(lits)
             for o in lits:
@@ -884,6 +891,8 @@ def route_ignored_sets(R, bad, stats):
                     got.append(s2[0])
             want = [impl(n) for n in ign_names]
             stats['ignored_rules'] += len(want)
+            if e.sub and got[:len(want)] == want and len(got) == len(want) + 1 and got[-1].endswith('_ignored'):
+                got = got[:-1]      # plus the inherited patterns (see known finding KF-combined-ignore)
             if got != want:
                 bad('IGN-rule', f'{label}: the synthetic ignore rule tries {got}, expected exactly the ignored '
                                 f'rules {want}')
